@@ -57,7 +57,9 @@ def get_controlled_rotation_matrix(axis, angle) -> np.ndarray:
 def gate_to_matrix(instr, angle=None):
     """Returns the matrix representation of a quantum gate"""
     if instr in STATIC_QUBIT_GATE_TO_MATRIX:
-        return STATIC_QUBIT_GATE_TO_MATRIX[instr]
+        # (a copy: the caller gets a matrix of its own, not the array that is also used to
+        # build every rotation matrix)
+        return STATIC_QUBIT_GATE_TO_MATRIX[instr].copy()
     elif instr in [GenericInstr.ROT_X, GenericInstr.ROT_Y, GenericInstr.ROT_Z]:
         if angle is None:
             raise TypeError(
